@@ -144,3 +144,24 @@ extern "C" void h_supported(void) {
    vp_assert(vp_stream_ctrl(&os) == 0 && vp_stream_size(&os) > 0 && pp.indent() == 0, 21);
    vp_done();
 }
+// numbers at the digit-count boundaries of their type: file, line and column of a location picked among 1, 999999999, 1000000000 and the
+// largest 32-bit value; each is written in decimal, in full, with no stray byte
+extern "C" void h_number_boundaries(void) {
+   impl::Lexicon* lx = new impl::Lexicon; impl::Translation_unit* unit = new impl::Translation_unit(*lx);
+   static const uint32_t vals[4] = { 1u, 999999999u, 1000000000u, 4294967295u };
+   static const char* const text[4] = { "1", "999999999", "1000000000", "4294967295" };
+   unsigned f = vp_pick(4), l = vp_pick(4), c = vp_pick(4);
+   impl::Var* v = unit->global_scope()->make_var(lx->get_identifier(u8"b"), lx->int_type());
+   v->src_locus.file = File_index{ vals[f] }; v->src_locus.line = Line_number{ vals[l] }; v->src_locus.column = Column_number{ vals[c] };
+   std::ostringstream& os = *new std::ostringstream; Printer pp { *lx, os }; pp.print_locations = true;
+   Stream_state before = state_of(os);
+   int out = vp_outcome([&] { pp << *unit; });
+   vp_assert(out == 0 && same_state(before, state_of(os)), 30);
+   char needle[48]; int n = 0; needle[n++] = 'F';
+   for (const char* p = text[f]; *p; ++p) needle[n++] = *p; needle[n++] = ':';
+   for (const char* p = text[l]; *p; ++p) needle[n++] = *p; needle[n++] = ':';
+   for (const char* p = text[c]; *p; ++p) needle[n++] = *p; needle[n++] = ' '; needle[n++] = 'b'; needle[n] = 0;
+   vp_assert(vp_stream_contains(&os, needle), 31);
+   vp_assert(vp_stream_ctrl(&os) == 0 && pp.indent() == 0, 32);
+   vp_done();
+}
